@@ -8,6 +8,7 @@
 -/
 import CC.Skein.Lemmas
 import CC.Skein.Src
+import CC.Skein.SrcBlock
 namespace CC.Thm.C05
 open CC CC.Skein CC.Skein.Model
 
@@ -198,5 +199,72 @@ theorem source_glue_match :
    fun p h hp hb output => CC.Src.src_skein1024_finalize_into_dirty p h hp hb output,
    fun p h n hn => CC.Src.src_skein1024_reset p h n hn,
    CC.Src.src_skein_structs⟩
+
+/-- **Source tie, round 6 (the `Block<N>` union).**  `tools/inventory_hashc.py` regenerates, on every run, Lean
+    definitions from the Rust of the `repr(C)` union `Block<N> { bytes: GenericArray<u8, N>, words: GenericArray<u64, N/8> }`
+    of hashes/skein/src/lib.rs, for N = 32, 64, 128 (a union is its byte image; a field read re-packs the bytes
+    little-endian, a field write stores the bytes of the value): `as_byte_array`, `as_byte_array_mut`, `bytes`,
+    `from_byte_array` are the identity on the byte array (what the model and the phase-3 glue translation assume); the
+    word views `as_word_array` / `as_word_array_mut` give word `i` = `read64le` of bytes `8i … 8i+7` (`leWord`), a
+    re-packing of the same bytes (`leWordsBytes b k 0 = b`); `Default::default()` is N zero bytes; and
+    `BitXor::bitxor` — the loop `*s ^= *r` over the two word views — is the byte-wise xor `xorBytes` the model's
+    `processCore` uses (= the `xorInto` of the glue translation) for blocks of N bytes.
+    Individual facts: `CC.Src.src_skein_block*` (lean/CC/Skein/SrcBlock.lean). -/
+theorem source_block_match :
+    CC.Gen.HashCSrc.skein_hashc_errors = [] ∧
+    (CC.Gen.HashCSrc.skein_block256_as_byte_array = fun b => b) ∧
+    (CC.Gen.HashCSrc.skein_block256_as_byte_array_mut = fun b => (b, b)) ∧
+    (CC.Gen.HashCSrc.skein_block256_bytes = fun b => (b, b)) ∧
+    (CC.Gen.HashCSrc.skein_block256_from_byte_array = fun b => b) ∧
+    (CC.Gen.HashCSrc.skein_block256_as_word_array = fun b => (CC.Src.leWord b 0, CC.Src.leWord b 1, CC.Src.leWord b 2, CC.Src.leWord b 3)) ∧
+    (CC.Gen.HashCSrc.skein_block256_as_word_array_mut = fun b => (CC.Src.leWord b 0, CC.Src.leWord b 1, CC.Src.leWord b 2, CC.Src.leWord b 3, b)) ∧
+    CC.Gen.HashCSrc.skein_block256_default = List.replicate 32 0#8 ∧
+    (∀ (a b : List (BitVec 8)), a.length = 32 → b.length = 32 →
+      CC.Gen.HashCSrc.skein_block256_bitxor a b = xorBytes a b ∧ CC.Gen.HashCSrc.skein_block256_bitxor a b = CC.Gen.Kernels.xorInto a b) ∧
+    (CC.Gen.HashCSrc.skein_block512_as_byte_array = fun b => b) ∧
+    (CC.Gen.HashCSrc.skein_block512_as_byte_array_mut = fun b => (b, b)) ∧
+    (CC.Gen.HashCSrc.skein_block512_bytes = fun b => (b, b)) ∧
+    (CC.Gen.HashCSrc.skein_block512_from_byte_array = fun b => b) ∧
+    (CC.Gen.HashCSrc.skein_block512_as_word_array = fun b => (CC.Src.leWord b 0, CC.Src.leWord b 1, CC.Src.leWord b 2, CC.Src.leWord b 3, CC.Src.leWord b 4, CC.Src.leWord b 5, CC.Src.leWord b 6, CC.Src.leWord b 7)) ∧
+    (CC.Gen.HashCSrc.skein_block512_as_word_array_mut = fun b => (CC.Src.leWord b 0, CC.Src.leWord b 1, CC.Src.leWord b 2, CC.Src.leWord b 3, CC.Src.leWord b 4, CC.Src.leWord b 5, CC.Src.leWord b 6, CC.Src.leWord b 7, b)) ∧
+    CC.Gen.HashCSrc.skein_block512_default = List.replicate 64 0#8 ∧
+    (∀ (a b : List (BitVec 8)), a.length = 64 → b.length = 64 →
+      CC.Gen.HashCSrc.skein_block512_bitxor a b = xorBytes a b ∧ CC.Gen.HashCSrc.skein_block512_bitxor a b = CC.Gen.Kernels.xorInto a b) ∧
+    (CC.Gen.HashCSrc.skein_block1024_as_byte_array = fun b => b) ∧
+    (CC.Gen.HashCSrc.skein_block1024_as_byte_array_mut = fun b => (b, b)) ∧
+    (CC.Gen.HashCSrc.skein_block1024_bytes = fun b => (b, b)) ∧
+    (CC.Gen.HashCSrc.skein_block1024_from_byte_array = fun b => b) ∧
+    (CC.Gen.HashCSrc.skein_block1024_as_word_array = fun b => (CC.Src.leWord b 0, CC.Src.leWord b 1, CC.Src.leWord b 2, CC.Src.leWord b 3, CC.Src.leWord b 4, CC.Src.leWord b 5, CC.Src.leWord b 6, CC.Src.leWord b 7, CC.Src.leWord b 8, CC.Src.leWord b 9, CC.Src.leWord b 10, CC.Src.leWord b 11, CC.Src.leWord b 12, CC.Src.leWord b 13, CC.Src.leWord b 14, CC.Src.leWord b 15)) ∧
+    (CC.Gen.HashCSrc.skein_block1024_as_word_array_mut = fun b => (CC.Src.leWord b 0, CC.Src.leWord b 1, CC.Src.leWord b 2, CC.Src.leWord b 3, CC.Src.leWord b 4, CC.Src.leWord b 5, CC.Src.leWord b 6, CC.Src.leWord b 7, CC.Src.leWord b 8, CC.Src.leWord b 9, CC.Src.leWord b 10, CC.Src.leWord b 11, CC.Src.leWord b 12, CC.Src.leWord b 13, CC.Src.leWord b 14, CC.Src.leWord b 15, b)) ∧
+    CC.Gen.HashCSrc.skein_block1024_default = List.replicate 128 0#8 ∧
+    (∀ (a b : List (BitVec 8)), a.length = 128 → b.length = 128 →
+      CC.Gen.HashCSrc.skein_block1024_bitxor a b = xorBytes a b ∧ CC.Gen.HashCSrc.skein_block1024_bitxor a b = CC.Gen.Kernels.xorInto a b) ∧
+    (∀ (b : List (BitVec 8)) (k : Nat), b.length = 8 * k → CC.Src.leWordsBytes b k 0 = b) :=
+  ⟨CC.Src.src_skein_hashc_clean,
+   CC.Src.src_skein_block256_as_byte_array,
+   CC.Src.src_skein_block256_as_byte_array_mut,
+   CC.Src.src_skein_block256_bytes,
+   CC.Src.src_skein_block256_from_byte_array,
+   CC.Src.src_skein_block256_as_word_array,
+   CC.Src.src_skein_block256_as_word_array_mut,
+   CC.Src.src_skein_block256_default,
+   CC.Src.src_skein_block256_bitxor,
+   CC.Src.src_skein_block512_as_byte_array,
+   CC.Src.src_skein_block512_as_byte_array_mut,
+   CC.Src.src_skein_block512_bytes,
+   CC.Src.src_skein_block512_from_byte_array,
+   CC.Src.src_skein_block512_as_word_array,
+   CC.Src.src_skein_block512_as_word_array_mut,
+   CC.Src.src_skein_block512_default,
+   CC.Src.src_skein_block512_bitxor,
+   CC.Src.src_skein_block1024_as_byte_array,
+   CC.Src.src_skein_block1024_as_byte_array_mut,
+   CC.Src.src_skein_block1024_bytes,
+   CC.Src.src_skein_block1024_from_byte_array,
+   CC.Src.src_skein_block1024_as_word_array,
+   CC.Src.src_skein_block1024_as_word_array_mut,
+   CC.Src.src_skein_block1024_default,
+   CC.Src.src_skein_block1024_bitxor,
+   CC.Src.src_skein_word_view_roundtrip⟩
 
 end CC.Thm.C05
